@@ -369,6 +369,25 @@ def r13_no_cancel_and_retry_of_framed_reads(ctx):
     ctx.ob("R01.13", "crate:no-cancel-and-retry-of-framed-reads", True, "", "%d looped timeout/select sites examined, %d bodies perform framed reads" % (n, len(readers)), nontrivial=False)
 
 
+def r15_no_read_ahead_is_thrown_away(ctx):
+    """a buffering reader put in front of a socket is never unwrapped again: `into_inner()` returns the socket and silently
+    drops whatever the reader had already pulled in (data the application sent without waiting for the reply)"""
+    n = 0
+    bad = []
+    for key, body in ctx.P.scan():
+        if key.startswith(("util::cert", "util::tls", "anytls_")):
+            continue
+        for c in body.calls():
+            nm = c.norm or ""
+            if nm.endswith(("BufReader::new", "BufReader::with_capacity", "BufStream::new", "Framed::new", "FramedRead::new")):
+                n += 1
+            if nm.endswith(("BufReader::into_inner", "BufStream::into_inner", "FramedRead::into_inner", "Framed::into_inner", "Take::into_inner", "Chain::into_inner")) and "BufWriter" not in nm:
+                bad.append((key, c))
+    ctx.ob("R01.15", "crate:buffered-readers-are-never-unwrapped", not bad, bad[0][1].site if bad else "", "%d buffering readers, none unwrapped with into_inner()" % n if not bad else
+           "%s unwraps a buffering reader with `into_inner()`: bytes it had read ahead — tunnel payload pipelined behind the handshake — are discarded, so the peer receives the stream with a hole at its start"
+           % ctx.P.owner(bad[0][0]))
+
+
 def r14_one_path_per_stream(ctx):
     """the bytes a front-end / relay submits on a stream take one route to the wire: either the stream's outbound queue
     (Stream::send_data / AsyncWrite, drained by the forwarding task) or direct Session::write_data_frame calls — never both, because
@@ -502,6 +521,9 @@ def run(ctx):
     r12_every_dequeued_chunk_is_written(ctx)
     r13_no_cancel_and_retry_of_framed_reads(ctx)
     r14_one_path_per_stream(ctx)
+    r15_no_read_ahead_is_thrown_away(ctx)
+    from . import C17 as _C17
+    _C17.r3b_scan_window(ctx)   # the HTTP front-end finds the end of the head wherever the reads happen to cut it: nothing behind it is mistaken for header lines
     from . import C08
     C08.r6_loop_exits(ctx)      # a relay direction stops only when its own source ends or fails: queued bytes are not abandoned
     C08.r8_buffered_sinks_are_flushed(ctx)
